@@ -106,7 +106,7 @@ func c01(r *core.Run) {
 		construct := ac.Kind + "(" + ac.F.String() + ")"
 		st := e.stateAt(ac.Instr)
 		switch {
-		case ac.Fn == a.Serve && firstGo != nil && core.Dominates(ac.Instr, firstGo):
+		case beforeWorkers(p, a, ac.Instr, firstGo):
 			r.ExemptObl("L1", fn, construct, p.InstrPos(ac.Instr), "initialisation before the first worker goroutine is started (no other thread can hold a reference)")
 		case freshBase(ac.Addr, ac.Instr):
 			r.ExemptObl("L1", fn, construct, p.InstrPos(ac.Instr), "field of a work item allocated in this function and not yet published")
@@ -1138,6 +1138,55 @@ func classifyGroupArg(arg ssa.Value, c ssa.CallInstruction, a *svcAnchors, match
 		if cal := cc.StaticCallee(); cal != nil && cal.Name() == "Group" && cal.Signature.Recv() != nil && core.TypeName(cal.Signature.Recv().Type()) == "resource" {
 			return "(*resource).Group()", true
 		}
+		// a private helper given (name, match): Match.Group of its match parameter on the != nil
+		// edge, otherwise its name parameter - and the call site passes the name handed to
+		// GetHandler and GetHandler's result
+		if cal := cc.StaticCallee(); cal != nil && len(cal.Blocks) > 0 && cal.Pkg == c.Parent().Pkg {
+			var getArg ssa.Value
+			var getRes ssa.Value
+			for _, c2 := range core.Calls(c.Parent()) {
+				if g := c2.Common().StaticCallee(); g != nil && g.Name() == "GetHandler" {
+					getArg, getRes = c2.Common().Args[1], c2.Value()
+				}
+			}
+			argOf := func(v ssa.Value) ssa.Value {
+				for i, prm := range cal.Params {
+					if ssa.Value(prm) == v && i < len(cc.Args) {
+						return cc.Args[i]
+					}
+				}
+				return nil
+			}
+			hasMG, hasName, other := false, false, false
+			for _, ret := range core.Returns(cal) {
+				if len(ret.Results) != 1 {
+					other = true
+					continue
+				}
+				for _, src := range phiSources(ret.Results[0]) {
+					if u, ok := core.Strip(src.V).(*ssa.UnOp); ok {
+						if fa, ok := u.X.(*ssa.FieldAddr); ok {
+							if f, ok := core.FieldOf(fa); ok && f == matchGroup && getRes != nil && holdsValue(argOf(fa.X), getRes) {
+								for _, dc := range srcEdges(ret, src) {
+									if strings.HasSuffix(describeCond(dc), "!=nil") {
+										hasMG = true
+									}
+								}
+								continue
+							}
+						}
+					}
+					if av := argOf(src.V); av != nil && getArg != nil && (av == getArg || sameCellLoad(av, getArg)) {
+						hasName = true
+						continue
+					}
+					other = true
+				}
+			}
+			if hasMG && hasName && !other {
+				return "helper(Match.Group when matched, else the resource name)", true
+			}
+		}
 		return "call:" + core.CalleeName(x), false
 	case *ssa.Parameter:
 		fn := x.Parent()
@@ -1258,8 +1307,8 @@ func c01Restart(r *core.Run, rule string, a *svcAnchors, root []*ssa.Function) {
 		"Store(stopped) is dominated by a plain WaitGroup.Wait on the worker group", "the service can be declared stopped (and served again) while a worker of this run is still inside a callback: after the restart the same group can run on two workers at once")
 	firstGo := firstWorkerStart(p, a)
 	fresh := false
-	for _, ac := range core.FieldAccesses([]*ssa.Function{a.Serve}, func(f core.Field) bool { return f == a.RWork }) {
-		if ac.Kind == "store" && firstGo != nil && core.Dominates(ac.Instr, firstGo) {
+	for _, ac := range core.FieldAccesses(p.Helpers(a.Serve), func(f core.Field) bool { return f == a.RWork }) {
+		if ac.Kind == "store" && beforeWorkers(p, a, ac.Instr, firstGo) && (ac.Fn == a.Serve || unconditionalIn(ac.Instr)) {
 			if _, ok := ac.Instr.(*ssa.Store).Val.(*ssa.MakeMap); ok {
 				fresh = true
 			}
@@ -1570,4 +1619,51 @@ func c01EnqueueUnit(r *core.Run, a *svcAnchors, e *lockEngine, gparam *ssa.Param
 	if nPush == 0 {
 		r.Bad("A2", fname, "register-before-push", p.Pos(fn.Pos()), "no push of a new work item")
 	}
+}
+
+// unconditionalIn: an instruction of a helper is executed on every path
+// through the helper (it dominates all its normal returns); an instruction of
+// any other function is taken as it is (the caller states its own dominance).
+func unconditionalIn(in ssa.Instruction) bool {
+	fn := in.Parent()
+	n := 0
+	for _, ret := range core.Returns(fn) {
+		if fn.Recover != nil && ret.Block() == fn.Recover {
+			continue
+		}
+		n++
+		if !core.Dominates(in, ret) {
+			return false
+		}
+	}
+	return n > 0
+}
+
+// holdsValue: a is v, or a load of a local cell every store to which stores v
+// (a variable assigned once and captured by a closure).
+func holdsValue(a, v ssa.Value) bool {
+	if a == nil || v == nil {
+		return false
+	}
+	if a == v {
+		return true
+	}
+	u, ok := a.(*ssa.UnOp)
+	if !ok || u.Op != token.MUL {
+		return false
+	}
+	al, ok := u.X.(*ssa.Alloc)
+	if !ok || al.Referrers() == nil {
+		return false
+	}
+	n := 0
+	for _, rf := range *al.Referrers() {
+		if st, ok := rf.(*ssa.Store); ok && st.Addr == ssa.Value(al) {
+			n++
+			if st.Val != v {
+				return false
+			}
+		}
+	}
+	return n > 0
 }
